@@ -16,7 +16,7 @@ from symcore import HarnessError, Engine, Inconclusive
 
 PROP = 'C17'
 CODECS = ['ber', 'uper']
-ADB = [None, {('M', 'T', 'v'): {1: 'INTEGER'}}]
+ADB = [None, {('M', 'T', 'v'): {1: 'INTEGER'}}, {('M', 'T', 'v'): {1: 'BOOLEAN'}}]
 FILELISTS = [['f1'], ['f1', 'f2'], 'f1']
 ENCODINGS = ['utf-8']
 
@@ -134,10 +134,106 @@ def jobs_for(tier):
                              maxlen=top_len, tier=tier))
     if tier == 'thorough':
         jobs.append(dict(id='history3/len-f1=1,f2=1', ncalls=3, lens=[1, 1], maxlen=top_len, tier=tier, small=True))
+    for name in STORED:
+        for codec in (('ber', 'uper') if tier == 'quick' else ('ber', 'der', 'per', 'uper', 'oer')):
+            jobs.append(dict(id='stored/%s/%s' % (name, codec), stored=name, codec=codec, numeric_enums=False,
+                             tier=tier, ncalls=0, maxlen=0, lens=[0, 0]))
     return jobs
 
 
+# ---- what the cache hands back: the pickled Specification ---------------------------------------
+STORED = {
+    'basic': ('T DEFINITIONS AUTOMATIC TAGS ::= BEGIN\nA ::= SEQUENCE { a INTEGER (0..300), b BOOLEAN OPTIONAL, '
+              'e ENUMERATED { x, y } DEFAULT y, l SEQUENCE (SIZE(0..2)) OF B }\nB ::= CHOICE { p INTEGER (0..7), q NULL }\nEND\n'),
+    'recursive': 'T DEFINITIONS AUTOMATIC TAGS ::= BEGIN\nA ::= SEQUENCE { v INTEGER (0..7), next A OPTIONAL }\nEND\n',
+    # one type name in one, two and three modules (Specification.types keeps only unambiguous names)
+    'three-modules': ('M1 DEFINITIONS AUTOMATIC TAGS ::= BEGIN\nId ::= INTEGER (0..7)\nA ::= SEQUENCE { i Id }\nEND\n'
+                      'M2 DEFINITIONS AUTOMATIC TAGS ::= BEGIN\nId ::= BOOLEAN\nTwo ::= SEQUENCE { t Id }\nDup ::= NULL\nEND\n'
+                      'M3 DEFINITIONS AUTOMATIC TAGS ::= BEGIN\nId ::= IA5String (SIZE(0..2))\nDup ::= BOOLEAN\nEND\n'),
+}
+
+
+def make_stored_harness(job):
+    """diskcache stores the pickled Specification and returns the unpickled copy: that copy must be the
+    same codec (same type names, and for every type the same bytes / values / errors on all symbolic
+    values) as the object that was compiled"""
+    import pickle
+    from lib import equiv
+    from lib.symvalue import Gen, Bounds
+    text = STORED[job['stored']]
+    parsed = asn1tools.parse_string(text)
+    fresh = asn1tools.compile_string(text, job['codec'], numeric_enums=job['numeric_enums'])
+    stored = pickle.loads(pickle.dumps(fresh))
+    pyfront.patch_lookup_dicts(fresh)
+    pyfront.patch_lookup_dicts(stored)
+    cands = C.Candidates(fresh, stored)
+    gen = Gen(parsed, Bounds(int_abs=1 << 9, n_len=2, depth=3, str_len=2), job['numeric_enums'])
+    names_f, names_s = sorted(fresh.types), sorted(stored.types)
+    where = {}
+    for mod, d in parsed.items():
+        for n in d['types']:
+            where.setdefault(n, []).append(mod)
+
+    def harness(ctx):
+        cands.attach(ctx)
+        ctx.describe = lambda m: {'stored': job['stored'], 'codec': job['codec']}
+        if names_f != names_s:
+            ctx.violation('stored-specification-has-other-types', 'compiled: %s, from the cache: %s' % (names_f, names_s))
+            return
+        ctx.res.proved += 1
+        k = ctx.choose('type', len(names_f))
+        name = names_f[k]
+        mod = where[name][0]
+        with shimmed(C.CODEC_MODS):
+            v = gen.value(ctx, parsed[mod]['types'][name], mod)
+            from lib.symvalue import jsonable, concretize
+            ctx.describe = lambda m: {'stored': job['stored'], 'codec': job['codec'], 'type': name,
+                                      'value': jsonable(concretize(v, m))}
+            if equiv.compare_codecs(ctx, fresh.types[name], stored.types[name], v, 'stored-vs-compiled'):
+                ctx.note('stored-specification-equivalent')
+    return harness
+
+
+def replay_stored(v):
+    import pickle
+    from lib.symvalue import unjson
+    inp = v['witness']['inputs']
+    job = v['job']
+    text = STORED[job['stored']]
+    fresh = asn1tools.compile_string(text, job['codec'], numeric_enums=job['numeric_enums'])
+    import tempfile
+    import shutil
+    d = tempfile.mkdtemp(dir='/var/tmp')
+    try:
+        path = os.path.join(d, 'spec.asn')
+        open(path, 'w').write(text)
+        asn1tools.compile_files(path, job['codec'], cache_dir=os.path.join(d, 'cache'), numeric_enums=job['numeric_enums'])
+        cached = asn1tools.compile_files(path, job['codec'], cache_dir=os.path.join(d, 'cache'),
+                                         numeric_enums=job['numeric_enums'])     # second call: from the cache
+    finally:
+        shutil.rmtree(d, ignore_errors=True)
+    if sorted(cached.types) != sorted(fresh.types):
+        return True, 'compile_files from the cache knows the types %s, an uncached compile %s' % (
+            sorted(cached.types), sorted(fresh.types))
+    if 'type' not in inp:
+        return False, 'same type names'
+    value = unjson(inp['value'])
+
+    def run(spec):
+        try:
+            enc = spec.encode(inp['type'], value)
+            return ('enc', enc.hex(), repr(spec.decode(inp['type'], enc)))
+        except Exception as e:
+            return (type(e).__name__,)
+    a, b = run(fresh), run(cached)
+    if a != b:
+        return True, 'type %s value %r: uncached %r, from the cache %r' % (inp['type'], value, a, b)
+    return False, 'cached and uncached specification agree on %r' % (value,)
+
+
 def make_harness(job):
+    if job.get('stored'):
+        return make_stored_harness(job)
     ncalls, maxlen = job['ncalls'], job['maxlen']
     lens = dict(zip(('f1', 'f2'), job['lens']))
     small = job.get('small')
@@ -308,6 +404,7 @@ def replay_real(calls):
             if not all(0x20 <= x <= 0x7e and x != 0x22 for x in b):
                 return None
     d = tempfile.mkdtemp(dir='/var/tmp')
+    vacuous = False
     try:
         for i, c in enumerate(calls):
             for f in ('f1', 'f2'):
@@ -329,18 +426,24 @@ def replay_real(calls):
                 plain = _observe(asn1tools.compile_files(files, c['codec'], **kw))
             except Exception as e:
                 plain = ['compile raised %s' % type(e).__name__]
+            if cached == plain and cached and str(cached[0]).startswith('compile raised'):
+                vacuous = True      # this codec cannot compile the embedding text: nothing observed
             if cached != plain:
                 return True, ('call %d compile_files(%r, %r, numeric_enums=%r, any_defined_by_choices=%s) with a cache '
                               'directory behaves like an earlier compile: %r, without cache: %r (file texts embed the '
                               'witness octets %r in a string literal)' % (
                                   i + 1, c['files'], c['codec'], c['numeric_enums'], c['adb'], cached[:2], plain[:2],
                                   {f: bytes.fromhex(c['contents'][f]) for f in ('f1', 'f2')}))
+        if vacuous:
+            return None
         return False, 'real files: every cached compile behaves like the uncached one'
     finally:
         shutil.rmtree(d, ignore_errors=True)
 
 
 def replay(v):
+    if v['job'].get('stored'):
+        return replay_stored(v)
     r = replay_real(v['witness']['inputs']['calls'])
     if r is not None:
         return r
